@@ -9,7 +9,7 @@ git -C /repo worktree add -q --detach "$W/repo" HEAD
 # untracked hook files (export_verif.go) of the live tree
 (cd /repo && git ls-files --others --exclude-standard | grep '_verif.go$' | while read f; do mkdir -p "$W/repo/$(dirname $f)"; cp "$f" "$W/repo/$f"; done)
 git -C "$W/repo" apply "$PATCH"
-rsync -a --exclude work --exclude replays --exclude .git /verif/ "$W/verif/"
+rsync -a --exclude work --exclude replays --exclude .git /verif/ "$W/verif/" || true
 cd "$W/verif"
 VERIF_REPO="$W/repo" ./check "$PID" --tier "$TIER" || echo "exit=$?"
 ls replays 2>/dev/null | head -3
